@@ -1207,8 +1207,11 @@ Definition lds_in_use (res : list entry) : nat :=
 Lemma lregs_total : forall n res, Forall (entry_ok n) res -> total (lregs res) = lds_in_use res.
 Proof.
   induction res as [|e res IH]; intros H; [reflexivity|].
-  inversion H as [|x y He Hrest]; subst. unfold lregs in *. simpl. rewrite total_app_aux.
-  rewrite (IH Hrest). destruct He as [Hl [Hn _]].
+  inversion H as [|x y He Hrest]; subst.
+  change (lregs (e :: res)) with
+    ((match e_locs e with [] => [] | l :: _ => [lreg_of (e_dem e) l] end) ++ lregs res).
+  unfold total. rewrite total_app_aux. fold (total (lregs res)). rewrite (IH Hrest).
+  destruct He as [Hl [Hn _]].
   destruct (e_locs e) as [|l ls]; [simpl in Hl; lia|]. simpl. unfold lreq, lds_bytes. lia.
 Qed.
 
